@@ -1,8 +1,9 @@
 (* C15 — No eviction without memory pressure (accounting tracks content).
    Statements only; proofs in Proofs/PPolicy.v. [headroom]: the stored bytes stay
    far below 2^64 (16 EiB). *)
+From Coq Require Import ZArith.
 From MC Require Import Model.Base Model.Generated Model.Store Model.Memc Model.Codec Model.Handler
-  Spec.Exec Proofs.StoreLemmas Proofs.SetLemmas Proofs.Effects Proofs.PPolicy.
+  Model.PolConc Spec.Exec Proofs.StoreLemmas Proofs.SetLemmas Proofs.Effects Proofs.PPolicy Proofs.PPolConc.
 
 (* every request keeps: keys unique, counter = bytes actually stored *)
 Theorem C15_request_keeps_accounting : forall req s,
@@ -37,6 +38,32 @@ Print Assumptions C15_get_keeps_accounting.
 Theorem C15_flush_keeps_accounting : forall d s, acct s -> acct (flush d s).
 Proof. exact flush_acct. Qed.
 Print Assumptions C15_flush_keeps_accounting.
+
+(* under concurrency (Model/PolConc.v: any clients, any schedule of the atomic
+   map and counter calls, any outcome of the scans): the accounted usage never runs
+   below the bytes stored — so the counter never wraps and nothing is evicted on
+   account of bytes that are not there once the operations in progress have
+   finished — and equals them exactly whenever no operation is in progress *)
+Theorem C15_accounting_exact_concurrent :
+  forall (now : N) (limit : Z), (0 <= limit)%Z ->
+  forall (clients : list (list pores -> option pop)) (s0 : pshared) (sched : list nat),
+  NoDup (keys (p_mem s0)) -> p_usage s0 = totz s0 ->
+  let '(ts, s) := prun_sched now limit sched (map (fun c => new_gthread c) clients) s0 in
+  (totz s <= p_usage s)%Z /\ (Forall idle ts -> p_usage s = totz s).
+Proof. exact accounting_exact_conc. Qed.
+Print Assumptions C15_accounting_exact_concurrent.
+
+(* non-vacuity: a client collecting an expired record while another overwrites it
+   and a third flushes; everything returns to 'usage = stored bytes' *)
+Example C15_concurrent_nonvacuous :
+  let k := [x6b] in
+  let s0 := mkP [(k, mkRec 0 1 0 2 [x6f; x6c; x64]); ([x6a], mkRec 0 2 0 0 [x78])] 3 52%Z [] in
+  let ops := [[PoGet k]; [PoSet k (mkRec 0 0 7 0 [x6e; x65; x77; x21])]; [PoDel [x6a] 0]] in
+  let ts0 := map (fun o => new_gthread (list_client o)) ops in
+  let '(ts, s) := prun_sched 5 1000%Z [0;0;1;1;1;0;1;2;2;0;1;1;2;0;0;1;2;2]%nat ts0 s0 in
+  Forall idle ts /\ p_usage s = totz s /\ totz s = 28%Z /\
+    map (@g_done _ _ _ _) ts = [[PGetR (RErr NotFound)]; [PSetR (ROk 3)]; [PDelR (ROk (mkRec 0 2 0 0 [x78]))]].
+Proof. vm_compute. repeat split; repeat constructor. Qed.
 
 Example C15_nonvacuous :
   let s0 := init_store (Some 1000) in
